@@ -594,6 +594,10 @@ fn c07_one(b: &Built, g: &mut Inner, st: &mut State, u: UnOp, pe: EdgeId, se: Ed
         }
         produced = upto;
     }
+    if let UnOp::Take(0) = u {
+        // take(0) is outside C07 (n >= 1); nothing to judge beyond the list function above
+        return;
+    }
     if let UnOp::Take(n) = u {
         if ys.len() >= n {
             // "disposes upstream immediately after the nth item": exactly one stop, inside the
